@@ -2460,7 +2460,9 @@ impl<'input, T: Input> Scanner<'input, T> {
             let tok = Token(Span::empty(sk.mark), TokenType::Key);
             self.insert_token(sk.token_number - self.tokens_parsed, tok);
             if is_implicit_flow_mapping {
-                if sk.mark.line < start_mark.line {
+                // The key of a single pair in a flow sequence is an implicit key: it is limited
+                // to one line and 1024 characters, like in block mappings.
+                if sk.mark.line < start_mark.line || sk.mark.index + 1024 < start_mark.index {
                     return Err(ScanError::new_str(
                         start_mark,
                         "illegal placement of ':' indicator",
